@@ -1,7 +1,7 @@
 (* Extract.v -- extraction of the executable model for the correspondence check.
    Only ExtrOcamlBasic is used: bool, option, list, prod, unit, sumbool map to OCaml's own
    types; nat, positive, N, Z stay the extracted Coq inductives.  No Extract Constant. *)
-From Az65 Require Import AbsPath Base Expr CSpec ExprFacts Token ExprParse Utf8 CharReader Interner Linker Asm Arch ArchTables Run IsaZ80 IsaSm83 Isa6502 GParse FileMan Full Export Lexer Cli ExprLoc Trace.
+From Az65 Require Import AbsPath Base Expr CSpec ExprFacts Token ExprParse Utf8 CharReader Interner Linker Asm Arch ArchTables Run IsaZ80 IsaSm83 Isa6502 GParse FileMan Full Export Lexer Cli ExprLoc Trace OperandLoc.
 From Az65.Gen Require Import Tables.
 Require Import ExtrOcamlBasic.
 Extraction Language OCaml.
@@ -12,4 +12,4 @@ Extraction "model.ml"
   run_asm run_parse run_full export_sym export_nl rows_of z80_decode sm83_decode mos_decode dir_names z80_op_table z80_reg_table sm83_op_table sm83_reg_table mos_op_table mos_reg_table z80_op_names z80_reg_names z80_flag_names sm83_op_names sm83_reg_names sm83_flag_names mos_op_names mos_reg_names
   run_main parse lex_all lex_fault directive_of_id dir_table z80_flag_table sm83_flag_table
   z80_op_display z80_reg_display sm83_op_display sm83_reg_display mos_op_display mos_reg_display abs_norm
-  lptree ltoks_of trace.
+  lptree ltoks_of trace loperand.
